@@ -124,6 +124,11 @@ def linux_commands_wildcard_injection(context, config):
             argument_string = ""
             if isinstance(call_argument, list):
                 for li in call_argument:
+                    # a number names no command and holds no wildcard (and
+                    # one beyond the int -> str digit limit cannot even be
+                    # formatted)
+                    if isinstance(li, (int, float)):
+                        continue
                     argument_string += f" {li}"
             elif isinstance(call_argument, str):
                 argument_string = call_argument
